@@ -48,6 +48,10 @@ SEED_EXPRESSIONS = [
     "<math><mi>x</mi><mtext>where</mtext><mi>X</mi><mo>&gt;</mo><mn>0</mn></math>",
     "<math><msub><mi>a</mi><mn>1</mn></msub><msub><mi>a</mi><mn>2</mn></msub><msub><mi>a</mi><mn>3</mn></msub><msub><mi>a</mi><mn>4</mn></msub>"
     "<msub><mi>a</mi><mn>5</mn></msub><msub><mi>a</mi><mn>6</mn></msub></math>",
+    "<math><mn>2025</mn><mo>+</mo><mn>1,234.5</mn></math>",
+    "<math><mi>x</mi><mo>=</mo><mi>sin</mi><mo>&#x2061;</mo><mi>y</mi></math>",
+    "<math><mi>x</mi><mo>=</mo><mtext>a &#xA0; b</mtext></math>",
+    "<math><mtext>na&#xEF;ve caf&#xE9;</mtext><mi>&#x394;x</mi><mo>&#x2260;</mo><mi>arcsin</mi></math>",
 ]
 
 
@@ -212,6 +216,8 @@ class ProblemBase(Exception):
         self.feat = feat          # observable features of the plain braille (part of the signature, not of the pre-cluster key)
         self.detail = detail
         self.query = query
+        self.where = "phase"      # "sweep" when seen while navigation was put on the characters of a token
+        self.offmark = ""
 
 
 def absent_ids(ids, rng):
@@ -227,14 +233,29 @@ def absent_ids(ids, rng):
     return out
 
 
-def nav_ops(step, ids):
+STAY_COMMANDS = ["ReadCurrent", "DescribeCurrent", "WhereAmI", "WhereAmIAll", "ToggleSpeakMode", "SetPlacemarker3", "Describe3"]   # do not move
+
+
+def nav_ops(step, ids, leaf_text=None):
+    """driver op of one navigation step.  Elements are addressed by document index, characters by (multi-character leaf index, offset),
+    so that a step means the same thing whatever the random prefix of the ids is.  leaf_text: id -> text of every token element."""
     kind = step[0]
+    leaf_text = leaf_text or {}
     if kind == "cmd":
         return ("do_navigate_command", step[1])
     if kind == "key":
         return ("do_navigate_keypress", step[1], bool(step[2]), bool(step[3]), bool(step[4]), False)
     if kind == "node":
-        return ("set_navigation_node", ids[step[1] % len(ids)], 0)
+        target = ids[step[1] % len(ids)]
+        k = step[2] if len(step) > 2 else 0
+        off = k % (len(leaf_text[target]) + 1) if k and leaf_text.get(target) else 0     # offset len(text) is the first illegal one
+        return ("set_navigation_node", target, off)
+    if kind == "char":
+        multi = [i for i in ids if len(leaf_text.get(i, "")) >= 2]
+        if not multi:
+            return ("set_navigation_node", ids[0], 0)
+        target = multi[step[1] % len(multi)]
+        return ("set_navigation_node", target, step[2] % (len(leaf_text[target]) + 1))
     raise ValueError(step)
 
 
@@ -249,7 +270,7 @@ def random_nav(rng, n_phases):
             elif r < 0.75:
                 steps.append(["key", rng.choice(NAV_KEYS), int(rng.random() < 0.3), int(rng.random() < 0.3), 0])
             else:
-                steps.append(["node", rng.randrange(1000)])
+                steps.append(["node", rng.randrange(1000), rng.choice([0, 0, 1, 2, 3, 5, 8])])
         phases.append(steps)
     return phases
 
@@ -294,6 +315,8 @@ def examine(sess, case, st=None):
         return {"skipped": "ids"}
     idset = set(ids)
     root_id = root.get("id")
+    leaf_text = {e.get("id"): (e.text or "") for e in root.iter()
+                 if e.get("id") is not None and len(e) == 0 and mml.local(e.tag) in ("mi", "mn", "mo", "mtext", "ms")}
     cells = list(base)
     n = len(cells)
     if not text_code and not all(is_cell(c) for c in cells):
@@ -305,8 +328,13 @@ def examine(sess, case, st=None):
     feat = "+".join((["text-code"] if text_code else []) + (["non-cell-output"] if not text_code and not all(is_cell(c) for c in cells) else [])
                     + (["own-8dot-cells"] if own_marks else [])) or "-"
 
+    cur = {"off": 0, "where": "phase"}     # offset of the navigation position and kind of phase the queries run in
+
     def Problem(kind, key, detail, q=None):
-        return ProblemBase(kind, key, detail, q, feat)
+        p = ProblemBase(kind, key, detail + (" [navigation offset %d]" % cur["off"] if cur["off"] else ""), q, feat)
+        p.where = cur["where"]
+        p.offmark = ":nav-offset>0" if cur["off"] else ""      # part of the signature (like feat), not of the pre-cluster key
+        return p
 
     if st is not None:
         st.evaluations += 1
@@ -336,9 +364,27 @@ def examine(sess, case, st=None):
     nav = case.get("nav", [])
     nph = len(nav) + 1
     chunks = [queries[i::nph] for i in range(nph)]
+    phase_list = [(None if i == 0 else nav[i - 1], chunks[i], "phase") for i in range(nph)]
+    # ---- character sweep: navigation ON A CHARACTER of every token with several characters (only set_navigation_node(id, offset) gets
+    # there), every offset 0..len(text) (the last one is refused and leaves navigation where it was), sometimes followed by a command
+    # that does not move; then the same position/highlight/purity clauses as for every other navigation position ----
+    rng2 = random.Random(case["plan_seed"] ^ 0x5BD1E995)
+    multi = [i for i in ids if len(leaf_text.get(i, "")) >= 2]
+    chars = [(li, off) for li, i in enumerate(multi) for off in range(len(leaf_text[i]) + 1)]
+    max_off = case.get("max_off", 0)
+    sweep_exhaustive = len(chars) <= max_off
+    if not sweep_exhaustive:
+        chars = sorted(rng2.sample(chars, max_off))
+    if not focus or "SWEEP" in focus:
+        for li, off in chars:
+            steps = [["char", li, off]]
+            if rng2.random() < 0.35:
+                steps.append(["cmd", rng2.choice(STAY_COMMANDS)])
+            phase_list.append((steps, [("NB",)] if not focus or "NB" in focus else [], "sweep"))
 
     facts = {"ids": len(ids), "cells": n, "exhaustive": exhaustive, "highlighted": 0, "routed": 0, "navnode_checks": 0, "phases": 0,
-             "nav_nodes": set(), "trap": 0}
+             "nav_nodes": set(), "trap": 0, "char_positions": 0,
+             "multi_char_leaves": len(multi), "sweep_exhaustive": sweep_exhaustive}
 
     def check_pure(q, before, after):
         d = before.diff(after)
@@ -372,10 +418,12 @@ def examine(sess, case, st=None):
             return ("get_braille_position",)
         return ("get_navigation_braille",)
 
-    for ph in range(nph):
+    for nav_steps, chunk, where in phase_list:
+        cur["where"] = where
+        cur["off"] = 0
         # ---- navigation (not judged here: C11), then a new reference snapshot ----
-        if ph > 0:
-            nops = [nav_ops(s, ids) for s in nav[ph - 1]]
+        if nav_steps is not None:
+            nops = [nav_ops(s, ids, leaf_text) for s in nav_steps]
             res = sess.batch(nops + SN)
             for o, r in zip(nops, res):
                 count("navigation_calls_" + r["r"])
@@ -386,12 +434,16 @@ def examine(sess, case, st=None):
                 count("plain_braille_changed_by_navigation")       # navigation is C11's subject; the queries cannot be judged any more
                 return facts
         nav_id, nav_off = S.nav_node(root_id)
+        cur["off"] = nav_off
+        if nav_off:
+            count("phases_with_navigation_on_a_character_offset_gt_0")
+            facts["char_positions"] += 1
         nav_in_expr = nav_id in idset
         if not nav_in_expr:
             count("navigation_node_not_in_expression")      # C11's business; node-specific clauses are skipped
         facts["nav_nodes"].add(ids.index(nav_id) if nav_in_expr else -1)
         facts["phases"] += 1
-        qs = [("BP",)] + ([("BN", nav_id)] if nav_in_expr and (not focus or "BN" in focus) else []) + chunks[ph] + [("BP",)]
+        qs = [("BP",)] + ([("BN", nav_id)] if nav_in_expr and (not focus or "BN" in focus) else []) + chunk + [("BP",)]
         ops = []
         for q in qs:
             ops.append(qop(q))
@@ -460,6 +512,8 @@ def examine(sess, case, st=None):
                                           % (ids.index(nav_id), s_, e_, hb, H, len(hcells)), q)
                         facts["navnode_checks"] += 1
                         count("navigation_node_highlight_within_position")
+                        if nav_off:
+                            count("navigation_node_highlight_within_position_at_offset_gt_0")
                         if H:
                             count("navigation_node_highlight_nonempty")
                             if (s_, e_) != (H[0], H[-1]):
@@ -572,6 +626,8 @@ def minimise(case, history, prob, flavour="native", budget_s=30):
     focus = None
     if prob.query is not None and prob.kind != "abort":
         focus = {"BN": ["BN", "BP"], "BP": ["BN", "BP"]}.get(prob.query[0], [prob.query[0]])
+        if getattr(prob, "where", "phase") == "sweep":
+            focus = focus + ["SWEEP"]
 
     def fails(c):
         if time.time() > t_end:
@@ -595,6 +651,12 @@ def minimise(case, history, prob, flavour="native", budget_s=30):
         best = dict(case)
         if tree is not None and tree.tag == "math":
             small = shrink.shrink_tree(tree, lambda t: fails(with_tree(t)), budget=400, leaf_factory=lambda: [gen.mn("3"), gen.mi("x")])
+            # normal form for tokens with several characters (the shrinker's own normal form is the one-letter identifier)
+            for node, path in list(small.walk()):
+                if node.kids is None and len(node.text or "") > 1 and not (node.tag == "mi" and node.text == "sin") and path:
+                    cand = shrink._replace_at(small, path, gen.mi("sin"))
+                    if fails(with_tree(cand)):
+                        small = cand
             best = with_tree(small)
         # navigation history, then extra preferences, then the configuration towards the defaults
         if best.get("nav"):
@@ -642,17 +704,18 @@ def skeleton_shape(t, depth=0):
 def make_sig(prob, case, n_hist):
     cfg = "%s/%s" % (case["code"], case["style"])
     hist = "+history" if n_hist else ""
+    key = prob.key + getattr(prob, "offmark", "")
     if prob.kind == "abort":
-        return "%s | %s%s" % (prob.kind, prob.key, hist)
+        return "%s | %s%s" % (prob.kind, key, hist)
     if prob.kind == "panic":
-        return "%s | %s | %s%s" % (prob.kind, prob.key, prob.feat, hist)
+        return "%s | %s | %s%s" % (prob.kind, key, prob.feat, hist)
     if prob.kind == "state-changed":
-        return "state-changed | %s | %s | %s%s" % (prob.key, prob.feat, cfg, hist)
+        return "state-changed | %s | %s | %s%s" % (key, prob.feat, cfg, hist)
     try:
         shape = skeleton_shape(gen.from_xml(case["mathml"]))
     except Exception:
         shape = "?"
-    return "%s | %s | %s | %s | %s%s" % (prob.kind, prob.key, prob.feat, cfg, shape, hist)
+    return "%s | %s | %s | %s | %s%s" % (prob.kind, key, prob.feat, cfg, shape, hist)
 
 
 def to_violation(cases, prob, flavour="native"):
@@ -688,6 +751,15 @@ def make_case(rng, code, tier_caps, mathml=None, depths=(1, 2, 2, 3)):
                 node.text = rng.choice([node.text[:2], node.text[:1], node.text[:1], node.text[:4]])
             elif node.tag == "mi" and node.text and len(node.text) == 1 and rng.random() < 0.15:
                 node.text = node.text.upper()
+            # tokens with several characters whose braille need not have one cell per character: long numbers with separators,
+            # function names, text with runs of blanks, non-ASCII text (navigation can rest on each of their characters)
+            r = rng.random()
+            if node.tag == "mn" and r < 0.12:
+                node.text = rng.choice(["2025", "1,234", "12,345.67", "0.5", "1000000", "3.14159"])
+            elif node.tag == "mi" and r < 0.06:
+                node.text = rng.choice(["sin", "arcsin", "log", "lim", "max", "Δx", "αβ", "rad", "Ab"])
+            elif node.tag == "mtext" and r < 0.5:
+                node.text = rng.choice(["a \u00a0 b", "if  and   only if", "naïve café", "для всех", "x\u2003y", " and ", "so that…", "größer als"])
         # fragments as they occur in running text: a leading or trailing relation, sign or word (their braille starts/ends with material
         # that the braille clean-up trims or re-spaces)
         r = rng.random()
@@ -706,7 +778,8 @@ def make_case(rng, code, tier_caps, mathml=None, depths=(1, 2, 2, 3)):
     if code in ("Nemeth", "UEB") and rng.random() < 0.15:
         prefs["UseSpacesAroundAllOperators" if code == "Nemeth" else "UEB_UseSpacesAroundAllOperators"] = rng.choice(["true", "false"])
     return {"code": code, "style": rng.choice(STYLES), "mathml": mathml, "plan_seed": rng.randrange(1 << 30),
-            "nav": random_nav(rng, rng.choice([1, 2, 3, 4])), "prefs": prefs, "max_ids": tier_caps[0], "max_pos": tier_caps[1]}
+            "nav": random_nav(rng, rng.choice([1, 2, 3, 4])), "prefs": prefs, "max_ids": tier_caps[0], "max_pos": tier_caps[1],
+            "max_off": tier_caps[2] if len(tier_caps) > 2 else 0}
 
 
 def shard(spec):
@@ -763,6 +836,9 @@ def shard(spec):
                 st.count("cells_total", facts["cells"])
                 st.count("ids_total", facts["ids"])
                 st.count("phases_with_distinct_navigation_node", len(facts["nav_nodes"]))
+                if facts["multi_char_leaves"]:
+                    st.count("expressions_with_multi_character_tokens")
+                    st.count("character_sweeps_exhaustive" if facts["sweep_exhaustive"] else "character_sweeps_sampled")
                 if len(facts["nav_nodes"]) > 1:
                     st.count("expressions_where_navigation_moved")
                 reached = facts["routed"] > 0 and (facts["highlighted"] > 0 or case["style"] == "Off") or code.startswith(TEXT_CODES)
@@ -816,7 +892,7 @@ def run(tier, seed):
     quick = tier == "quick"
     per_code = int(os.environ.get("C20_PER_CODE", "0")) or (26 if quick else 700)
     budget = 55 if quick else 1400
-    caps = (70, 64) if quick else (160, 150)
+    caps = (70, 64, 14) if quick else (160, 150, 60)
     cc, tc = cell_codes(), text_codes()
 
     def spec(i, **kw):
@@ -856,6 +932,9 @@ def run(tier, seed):
     stats, errors = core.Stats.merge(results)
     stats.notes.extend(harness_notes)
     # a braille code whose expressions were (almost) all skipped -- e.g. because its plain braille fails -- was not examined: not "held"
+    got = stats.counters.get("navigation_node_highlight_within_position_at_offset_gt_0", 0)
+    if got < (40 if quick else 1500) and not errors:
+        errors.append("too few observations: the position/highlight clauses were judged only %d times with navigation on a character (offset > 0)" % got)
     for code in cc + tc:
         need = (8 if quick else 100) if code in cc else (2 if quick else 20)      # text codes are examined for purity/no panic only
         got = stats.counters.get("expressions_judged_in_" + code, 0)
@@ -867,7 +946,7 @@ def run(tier, seed):
     return core.conclude(
         PROP, tier, seed, "exploration", stats,
         {"braille_codes": cc, "text_codes": tc, "highlight_styles": STYLES, "preferences_in_snapshot": len(pref_names()),
-         "caps_ids_positions": list(caps), "instrumented_builds": extra_builds},
+         "caps_ids_positions_characters": list(caps), "instrumented_builds": extra_builds},
         ["the snapshot is what the public API and the verif_nav_snapshot hook show: %d preferences, navigation stacks/markers/mode, speech, plain braille" % len(pref_names()),
          "the unhighlighted braille of an expression is get_braille(\"\") taken with BrailleNavHighlight=Off",
          "ids of the expression are read from set_mathml's return value with Python's XML parser",
@@ -877,7 +956,7 @@ def run(tier, seed):
          "Miri is not used: loading a braille rule set under Miri takes many minutes per process (DESIGN section 4)"],
         t0,
         rule="textbook-grammar expressions (plus fixed degenerate ones) x every braille code that ships x highlight style {Off, FirstChar, EndPoints, All}; per expression "
-             "get_braille(id) for all ids (cap %d) and near-miss absent ids, get_navigation_node_from_braille_position for all cells (cap %d) and out-of-range positions, "
+             "get_braille(id) for all ids (cap %d) and near-miss absent ids, get_navigation_node_from_braille_position for all cells (cap %d) and out-of-range positions, navigation put on every character of every multi-character token (set_navigation_node(id, offset), cap %d) with the position/highlight clauses re-judged there, "
              "get_braille_position/get_navigation_braille, shuffled and interleaved with navigation, full state snapshot after every query; evaluations = judged queries; "
              "non-trivial = expression where routing answered and (style Off, or >= 1 braille really came back with dots 7-8), or a text code; distinct by (code, style, element skeleton)" % caps,
         min_nontrivial=100 if quick else 1500, harness_errors=errors, known_replayed=known, fixed_failures=fixed_failures)
